@@ -494,6 +494,17 @@ func (l *Linter) resolveSnippetInclusion(
 		return statements
 	}
 
+	// A snippet which includes itself from one of its blocks would be expanded forever
+	if l.including[include.Module.Value] {
+		e := &LintError{
+			Severity: ERROR,
+			Token:    include.GetMeta().Token,
+			Message:  fmt.Sprintf("Snippet %s is included recursively", include.Module.Value),
+		}
+		l.Error(e.Match(INCLUDE_STATEMENT_MODULE_LOAD_FAILED))
+		return statements
+	}
+
 	// snippet could not have nested include statement
 	if isRoot {
 		return l.loadVCL(include.Module.Value, snip.Data)
